@@ -80,6 +80,24 @@ const GENERATED_POLICIES: &[&str] = &[
     r#"permit(principal, action, resource) when { ip("1.1.1.1").isInRange(ip("1.1.1.0/24"), ip("2.0.0.0/8")) || decimal("1").lessThan(1) || unknownfn(1, 2) || "a".notamethod() };"#,
 ];
 
+const GENERATED_UNICODE: &[(&str, &str)] = &[
+    ("policies", "permit(principal, action, resource) when { resource.name like \"caf\u{e9}*\\*\u{1F600}?\" && principal.\u{e9}t\u{e9} == \"na\u{ef}ve\" };"),
+    ("policies", "@note(\"\u{e9}\u{1F600}\") permit(principal == User::\"J\u{fc}rgen \u{1F600}\", action == Action::\"v\u{ef}ew\", resource) when { principal[\"na\u{ef}ve key\"] like \"*\u{e9}\\*\u{e9}*\" };"),
+    ("policies", "permit(principal, action == Action::\"v\u{ef}ew\", resource) when { principal.nickn\u{e4}me == resource.n\u{e4}me && context has \"\u{1F600}\" };"),
+    ("schema_cedar", "entity User = { \"na\u{ef}ve\": String, name: String, nickname: String }; entity Doc; action \"v\u{ef}ew\", view appliesTo { principal: [User], resource: [Doc], context: { \"\u{1F600}\"?: Long } };"),
+    ("entities_json", "[{\"uid\": {\"type\": \"User\", \"id\": \"J\u{fc}rgen \u{1F600}\"}, \"attrs\": {\"na\u{ef}ve\": \"caf\u{e9}\", \"name\": \"\u{1F600}\"}, \"parents\": []}]"),
+    ("context_json", "{\"__extn\": {\"fn\": \"ip\", \"arg\": \"10.0.0.1\"}}"),
+    ("context_json", "{\"__entity\": {\"type\": \"U\", \"id\": \"a\"}}"),
+    ("context_json", "{\"__expr\": \"1 + 1\"}"),
+    ("context_json", "[1, {\"a\": 2}]"),
+    ("context_json", "\"just a string\""),
+    ("context_json", "null"),
+    ("entities_json", "{\"uid\": {\"type\": \"U\", \"id\": \"a\"}, \"attrs\": {}, \"parents\": []}"),
+    ("entity_json", "[{\"uid\": {\"type\": \"U\", \"id\": \"a\"}, \"attrs\": {}, \"parents\": []}]"),
+    ("entity_json", "{\"uid\": {\"__extn\": {\"fn\": \"ip\", \"arg\": \"1.1.1.1\"}}, \"attrs\": {\"__entity\": {\"type\": \"U\", \"id\": \"a\"}}, \"parents\": [{\"__extn\": {\"fn\": \"ip\", \"arg\": \"1.1.1.1\"}}]}"),
+    ("schema_json", "{\"\": {\"entityTypes\": {\"U\\u00e9\": {}}, \"actions\": {\"v\\u00efew\": {\"appliesTo\": {\"principalTypes\": [\"U\\u00e9\"], \"resourceTypes\": [\"U\\u00e9\"]}}}}}"),
+];
+
 const GENERATED_EXPRS: &[&str] = &["1 + 2", "principal.a.b has c", r#"User::"a""#, r#"[1, "a", {"k": User::"b"}]"#, r#"ip("1.2.3.4")"#, r#"if context.x then principal else resource"#, r#"-9223372036854775808"#, r#"--1"#, r#""\u{10FFFF}" like "*""#, r#"a::b::"c""#];
 
 const GENERATED_SCHEMAS: &[&str] = &[
@@ -183,6 +201,9 @@ pub fn pools() -> &'static Pools {
         for (i, (k, p)) in GENERATED_JSON.iter().enumerate() {
             seeds.push(SeedDoc { name: format!("gen_json_{i}"), kind: k, bytes: p.as_bytes().to_vec() });
         }
+        for (i, (k, p)) in GENERATED_UNICODE.iter().enumerate() {
+            seeds.push(SeedDoc { name: format!("gen_unicode_{i}"), kind: k, bytes: p.as_bytes().to_vec() });
+        }
         for d in [8, 24, MAX_DEPTH] {
             for (i, (k, p)) in nested(d).into_iter().enumerate() {
                 seeds.push(SeedDoc { name: format!("gen_nested_{d}_{i}"), kind: k, bytes: p.into_bytes() });
@@ -192,6 +213,10 @@ pub fn pools() -> &'static Pools {
         let mut extra = vec![];
         for s in &seeds {
             let Ok(text) = std::str::from_utf8(&s.bytes) else { continue };
+            // building derived documents calls into cedar: a panic there must not take the harness
+            // down (the case that feeds the same seed to its entry point will report it)
+            let derived = std::panic::catch_unwind(std::panic::AssertUnwindSafe(|| {
+            let mut extra: Vec<SeedDoc> = vec![];
             match s.kind {
                 "policies" => {
                     if let Ok(ps) = PolicySet::from_str(text) {
@@ -259,6 +284,11 @@ pub fn pools() -> &'static Pools {
                 }
                 _ => {}
             }
+            extra
+            }));
+            if let Ok(d) = derived {
+                extra.extend(d);
+            }
         }
         seeds.extend(extra);
         // exhaustive part of the quick tier: every truncation point and every single-bit flip in
@@ -272,6 +302,17 @@ pub fn pools() -> &'static Pools {
                 for bit in 0..(s.bytes.len().min(64) * 8) {
                     exhaustive.push((i as u32, 1u8, bit as u32));
                 }
+                // the compact, feature-dense generated documents additionally get, at every
+                // position: a stray escape character, a stray quote, a lost byte
+                if s.name.starts_with("gen_") && !s.name.starts_with("gen_nested") {
+                    for k in 0..=s.bytes.len() {
+                        exhaustive.push((i as u32, 2u8, k as u32));
+                        exhaustive.push((i as u32, 3u8, k as u32));
+                        if k < s.bytes.len() {
+                            exhaustive.push((i as u32, 4u8, k as u32));
+                        }
+                    }
+                }
             }
         }
         let mut schemas = vec![];
@@ -279,7 +320,7 @@ pub fn pools() -> &'static Pools {
         for s in &seeds {
             if s.kind == "schema_cedar" && schemas.len() < 4 {
                 if let Ok(text) = std::str::from_utf8(&s.bytes) {
-                    if let Ok((sc, _)) = Schema::from_cedarschema_str(text) {
+                    if let Ok(Ok((sc, _))) = std::panic::catch_unwind(|| Schema::from_cedarschema_str(text).map(|(s, w)| (s, w.count()))) {
                         schemas.push(sc);
                     }
                 }
@@ -338,7 +379,7 @@ fn unhex(s: &str) -> Vec<u8> {
 
 fn apply_fault(rng: &mut Rng, cur: &mut Vec<u8>, seeds: &[SeedDoc], original: &[u8]) -> &'static str {
     let n = cur.len();
-    match rng.below(15) {
+    match rng.below(16) {
         0 => {
             if n > 0 {
                 cur.truncate(rng.below(n));
@@ -440,10 +481,17 @@ fn apply_fault(rng: &mut Rng, cur: &mut Vec<u8>, seeds: &[SeedDoc], original: &[
             if let Ok(mut v) = serde_json::from_slice::<Value>(cur) {
                 let count = json_nodes(&v);
                 let target = rng.below(count.max(1));
-                let mode = rng.below(7);
+                let mode = rng.below(9);
                 let mut k = 0usize;
                 let fill = rng.below(5);
-                json_mutate(&mut v, target, &mut k, mode, fill);
+                if mode >= 7 {
+                    // the document comes back as one of its own sub-documents
+                    if let Some(sub) = json_nth(&v, target, &mut k) {
+                        v = sub;
+                    }
+                } else {
+                    json_mutate(&mut v, target, &mut k, mode, fill);
+                }
                 *cur = serde_json::to_vec(&v).unwrap_or_default();
                 "json_subtree_lost_or_retyped"
             } else {
@@ -455,6 +503,12 @@ fn apply_fault(rng: &mut Rng, cur: &mut Vec<u8>, seeds: &[SeedDoc], original: &[
                 "token_lost"
             }
         }
+        14 => {
+            // an escape character appears in front of an arbitrary character
+            let at = rng.below(n + 1);
+            cur.insert(at, b'\\');
+            "backslash_insert"
+        }
         _ => "none",
     }
 }
@@ -464,6 +518,18 @@ fn json_nodes(v: &Value) -> usize {
         Value::Array(a) => a.iter().map(json_nodes).sum::<usize>(),
         Value::Object(m) => m.values().map(json_nodes).sum::<usize>(),
         _ => 0,
+    }
+}
+
+fn json_nth(v: &Value, target: usize, k: &mut usize) -> Option<Value> {
+    if *k == target {
+        return Some(v.clone());
+    }
+    *k += 1;
+    match v {
+        Value::Array(a) => a.iter().find_map(|x| json_nth(x, target, k)),
+        Value::Object(m) => m.values().find_map(|x| json_nth(x, target, k)),
+        _ => None,
     }
 }
 
@@ -1219,12 +1285,27 @@ impl World for StorageFaults {
             let (si, kind, pos) = p.exhaustive[index as usize];
             let s = &p.seeds[si as usize];
             let mut b = s.bytes.clone();
-            let fault = if kind == 0 {
-                b.truncate(pos as usize);
-                "torn_write_truncate"
-            } else {
-                b[pos as usize / 8] ^= 1 << (pos % 8);
-                "bit_flip"
+            let fault = match kind {
+                0 => {
+                    b.truncate(pos as usize);
+                    "torn_write_truncate"
+                }
+                1 => {
+                    b[pos as usize / 8] ^= 1 << (pos % 8);
+                    "bit_flip"
+                }
+                2 => {
+                    b.insert(pos as usize, b'\\');
+                    "backslash_insert"
+                }
+                3 => {
+                    b.insert(pos as usize, b'"');
+                    "quote_insert"
+                }
+                _ => {
+                    b.remove(pos as usize);
+                    "byte_lost"
+                }
             };
             let entries = native_entries(s.kind);
             return Case { hash_seed: hs.next(), entry: entries[(pos as usize + si as usize) % entries.len()].to_string(), seed_name: s.name.clone(), bytes_hex: hex(&b), faults: vec![fault.to_string()], stack_mib, reader, line_width, indent, schema };
@@ -1297,7 +1378,7 @@ impl World for StorageFaults {
         out
     }
     fn rule(&self) -> &'static str {
-        "cases = (stored document, fault plan, entry point, knobs): documents are the repo's sample policies / schemas / entities / contexts / JSON policies (copied to sim/corpus), generated ones (every operator, extension calls, escapes, i64 boundaries, nesting up to 48), cedar's own protobuf encodings of them and FFI call envelopes; the quick tier first ENUMERATES every truncation point and every single-bit flip in the first 64 bytes of every document of at most 2 KiB through its native entry point, then samples 1-4 faults per case (torn write, bit flip, token overwrite/insert/loss, structure-aware loss or retyping of a JSON sub-document, zero range, duplicate range, drop range, splice with another document, lost write, invalid UTF-8, byte swap, wrong-format delivery) plus reader faults (short reads, EINTR, hard error at byte k) and writer faults; each case runs parse -> {print, to_json, to_pst, proto round trip, format at 3 widths, validate strict/permissive/level, authorize 3 requests, link templates} or renders the error (Display, Debug, help, labels, miette graphical/narratable/JSON with source) in a crash-isolated worker process; non-trivial = case whose faulted document was still accepted by its entry point (so post-parse stages ran); distinct by hash of (entry point, faulted bytes)"
+        "cases = (stored document, fault plan, entry point, knobs): documents are the repo's sample policies / schemas / entities / contexts / JSON policies (copied to sim/corpus), generated ones (every operator, extension calls, escapes, i64 boundaries, nesting up to 48), cedar's own protobuf encodings of them and FFI call envelopes; the quick tier first ENUMERATES every truncation point and every single-bit flip in the first 64 bytes of every document of at most 2 KiB, and for the generated documents every position of a stray escape character, a stray quote and a lost byte, through the native entry point; then it samples 1-4 faults per case (torn write, bit flip, token overwrite/insert/loss, structure-aware loss or retyping of a JSON sub-document, zero range, duplicate range, drop range, splice with another document, lost write, invalid UTF-8, byte swap, stray escape character, document replaced by one of its own sub-documents, wrong-format delivery) plus reader faults (short reads, EINTR, hard error at byte k) and writer faults; each case runs parse -> {print, to_json, to_pst, proto round trip, format at 3 widths, validate strict/permissive/level, authorize 3 requests, link templates} or renders the error (Display, Debug, help, labels, miette graphical/narratable/JSON with source) in a crash-isolated worker process; non-trivial = case whose faulted document was still accepted by its entry point (so post-parse stages ran); distinct by hash of (entry point, faulted bytes)"
     }
     fn real_components(&self) -> Vec<&'static str> {
         vec!["every text/JSON/protobuf/FFI entry point of cedar_policy listed in DESIGN.md 4.6", "formatter, validator, authorizer, template linking, printers and converters on whatever parsed", "error rendering through miette (graphical, narratable, JSON) with source code attached", "impl Read / impl Write entry points (from_json_file, from_cedarschema_file, write_to_json)"]
